@@ -524,19 +524,49 @@ def build_fn(key, mode, log):
         splice(a_, b_, new + pad, src_ln)
         rw.append(dict(rule=rule, where='%s:%s' % (c.src_file, src_ln), before=re.sub(r'\s+', ' ', old)[:300], after=re.sub(r'\s+', ' ', new)[:300]))
 
+    # 0b. rule R19 (named by the contract: `//@for-desugar \`E\``): `for PAT in E { B }` =>
+    #     `{ let mut forit__ = E; loop { let PAT = match forit__.next() { Some(v__) => v__, None => break }; B } }`
+    #     the language definition of `for` (IntoIterator::into_iter on an iterator is the identity); used where E is an
+    #     iterator of a stand-in collection that Verus' built-in for-loop support does not know
+    for d in c.directives:
+        if d['kind'] != 'for-desugar':
+            continue
+        m_ = re.match(r'`(.*?)`\s*(x\?)?$', d['arg'], re.S)
+        if not m_:
+            raise ValueError('%s:%d: bad for-desugar' % (c.rel, d['lineno']))
+        mb = mask(body)
+        rx = re.compile(r'\bfor\s+(.+?)\s+in\s+' + flex_tok(m_.group(1)).pattern + r'\s*\{', re.S)
+        hits = list(rx.finditer(body))
+        if not hits and not m_.group(2):
+            raise LostAnchor('%s:%d: rule R19: no `for .. in %s {` in %s' % (c.rel, d['lineno'], m_.group(1), where))
+        for h in reversed(hits):
+            ob = h.end() - 1
+            cb = match_brace(mb, ob)
+            src_ln = orig[h.start()]
+            pat = h.group(1)
+            old_txt = body[h.start():h.end()]
+            splice(cb, cb + 1, '} }', orig[cb])
+            e_txt = m_.group(1) if m_.group(1).rstrip().endswith(')') else m_.group(1) + '.into_iter()'
+            new_txt = '{ let mut forit__ = %s; let ghost forit0__ = forit__; loop { let %s = match forit__.next() { Some(v__) => v__, None => break };' % (e_txt, pat)
+            splice(h.start(), h.end(), new_txt + '\n' * old_txt.count('\n'), src_ln)
+            rw.append(dict(rule='R19', where='%s:%s' % (c.src_file, src_ln), before=re.sub(r'\s+', ' ', old_txt), after=new_txt))
+
     # 1. explicit replaces
     for d in c.directives:
         if d['kind'] != 'replace':
             continue
-        m = re.match(r'(\S+)\s+`(.*?)`\s*=>\s*`(.*?)`\s*(x(\d+|\*))?$', d['arg'], re.S)
+        m = re.match(r'(\S+)\s+`(.*?)`\s*=>\s*`(.*?)`\s*(x(\d+|\*|\?))?$', d['arg'], re.S)
         if not m:
             raise ValueError('%s:%d: bad replace' % (c.rel, d['lineno']))
         rule, frm, to, _, cnt = m.groups()
         anycnt = cnt == '*'          # every occurrence (at least one)
-        cnt = 1 if anycnt else (int(cnt) if cnt else 1)
+        optcnt = cnt == '?'          # every occurrence, possibly none (the construct the stub stands for may be gone)
+        cnt = 1 if (anycnt or optcnt) else (int(cnt) if cnt else 1)
         rx = flex_tok(frm)
         hits = list(rx.finditer(body))
-        if (anycnt and not hits) or (not anycnt and len(hits) != cnt):
+        if optcnt:
+            pass
+        elif (anycnt and not hits) or (not anycnt and len(hits) != cnt):
             raise LostAnchor('%s:%d: rule %s pattern `%s` found %d times in %s (expected %d)'
                              % (c.rel, d['lineno'], rule, frm, len(hits), where, cnt))
         for h in reversed(hits):
@@ -782,7 +812,7 @@ def build_fn(key, mode, log):
     for d in c.directives:
         k = d['kind']
         tag = -d['lineno']
-        if k == 'replace':
+        if k in ('replace', 'for-desugar'):
             continue
         optional = k.endswith('?')
         if optional:
